@@ -49,6 +49,36 @@ def representations(bse, b, rng):
     return reps
 
 
+def top_rung_only(ea, eb):
+    """the two auxiliary elements are the same ladders except that one of them has one more rung at the top of one ladder (the ladder stops
+    at the first rung >= its bound, and the bound is a float computed from the normalised contractions: at an exact boundary the last bit decides)"""
+    if not ea or not eb:
+        return False
+    def ladders(el):
+        d = {}
+        for sh in el.get('electron_shells', []):
+            d.setdefault(tuple(sh['angular_momentum']), []).append(sh['exponents'][0])
+        return d
+    la, lb = ladders(ea), ladders(eb)
+    if set(la) != set(lb):
+        return False
+    extra = 0
+    for l in la:
+        a, b = la[l], lb[l]
+        if a == b:
+            continue
+        lo, hi = (a, b) if len(a) < len(b) else (b, a)
+        if len(hi) != len(lo) + 1:
+            return False
+        top = max(hi, key=float)
+        rest = list(hi)
+        rest.remove(top)
+        if sorted(rest) != sorted(lo):
+            return False
+        extra += 1
+    return extra == 1
+
+
 def close7(printed, value):
     p = float(printed)
     return abs(p - value) <= abs(value) * 2e-6
@@ -214,7 +244,8 @@ def work(item):
         for rname, r in results[1:]:
             if isinstance(r, str) or r['elements'] != base['elements']:
                 zs = [z for z in base['elements'] if isinstance(r, str) or r['elements'].get(z) != base['elements'][z]]
-                rec['bad'].append(('representation_independent', '%s of the %s representation differs from that of the stored one' % (method, rname), dict(elements=zs[:5])))
+                rec['bad'].append(('representation_independent', '%s of the %s representation differs from that of the stored one' % (method, rname),
+                                   dict(elements=zs[:5], top_rung_only=(not isinstance(r, str)) and all(top_rung_only(base['elements'][z], r['elements'].get(z)) for z in zs))))
         want_els = [z for z, el in b['elements'].items() if 'electron_shells' in el]
         if list(base['elements']) != want_els:
             rec['bad'].append(('covers_elements_with_functions', 'auxiliary basis covers %s, the orbital functions cover %s' % (list(base['elements'])[:6], want_els[:6]), {}))
@@ -271,7 +302,8 @@ def run(ctx):
                     R.violation('aux_raises', site, rec['raised'], dict(basis=out['label']))
                     continue
                 for rule, what, extra in rec['bad']:
-                    R.violation(rule, site, what, dict(basis=out['label'], **extra))
+                    R.violation(rule, site, what, dict(basis=out['label'], **{k: v for k, v in extra.items() if k != 'top_rung_only'}),
+                                **({'top_rung_only': extra['top_rung_only']} if 'top_rung_only' in extra else {}))
                 for e in rec['els']:
                     R.ev()
                     R.nt(e['hash'])
